@@ -23,6 +23,15 @@ Definition inside_ok (sb q : list N) : bool :=
 Definition spec_ok (sb p : list N) (ok : bool) (q : list N) : bool :=
   if is_abs sb && ok then inside_ok sb q && list_eqb nlist_eqb (loc_of q) (resolve sb p) else true.
 
+(* The property at command level (component-wise resolution only): every file that appeared while the command
+   ran is strictly inside the sandbox and is the canonical spelling of the location the argument resolves to;
+   nothing appears when the argument does not resolve strictly inside the sandbox. *)
+Definition caller_spec_ok (sb p : list N) (created : list (list N)) : bool :=
+  if is_abs sb then
+    forallb (fun f => inside_ok sb f && list_eqb nlist_eqb (loc_of f) (resolve sb p)) created &&
+    (strictly_inside (loc_of sb) (resolve sb p) || match created with [] => true | _ => false end)
+  else true.
+
 Definition check_case (c : case) : list N :=
   match c with
   | CSan sb p ok q => flag 1 (res_eqb (sanitize sb p) ok q) ++ flag 2 (spec_ok sb p ok q)
@@ -32,5 +41,5 @@ Definition check_case (c : case) : list N :=
               | Ok q => list_eqb nlist_eqb created [q]
               | Refused => match created with [] => true | _ => false end
               end)
-      ++ flag 2 (if is_abs sb then forallb (inside_ok sb) created else true)
+      ++ flag 2 (caller_spec_ok sb p created)
   end.
